@@ -92,6 +92,29 @@ pub fn prime() -> BigUint {
     (BigUint::from(1u8) << 251) + (BigUint::from(17u8) << 192) + BigUint::from(1u8)
 }
 
+/// multiplicative order of 2 in the field (p-1 = 2^192 * 5 * 7 * 98714381 * 166848103), computed, not assumed:
+/// exponents of 2 that differ by a multiple of it give the same power, so a bound placed on 2^x instead
+/// of on x admits x + k*ord2()
+pub fn ord2() -> BigUint {
+    let p = prime();
+    let two = BigUint::from(2u8);
+    let mut n = &p - BigUint::from(1u8);
+    let factors: [u64; 5] = [2, 5, 7, 98714381, 166848103];
+    let mut check = BigUint::from(1u8) << 192;
+    for q in &factors[1..] {
+        check *= BigUint::from(*q);
+    }
+    assert_eq!(check, n, "factorisation of p-1");
+    for q in factors {
+        let q = BigUint::from(q);
+        while (&n % &q) == BigUint::from(0u8) && two.modpow(&(&n / &q), &p) == BigUint::from(1u8) {
+            n /= &q;
+        }
+    }
+    assert_eq!(two.modpow(&n, &p), BigUint::from(1u8));
+    n
+}
+
 pub fn felt_from_big(b: &BigUint) -> Felt {
     let r = b % prime();
     let bytes = r.to_bytes_be();
